@@ -10,7 +10,7 @@ import (
 	"time"
 )
 
-func writeEvidence(prop, tier string, seed int, results []*harnessResult, pc *PropCfg, wall time.Duration, nviol int, inconc []string, ld *Loader) {
+func writeEvidence(prop, tier string, seed int, results []*harnessResult, pc *PropCfg, wall time.Duration, nviol int, inconc []string, ld *Loader, validated int) {
 	var states, transitions, obligations, discharged int64
 	var solverS float64
 	var samples []interface{}
@@ -94,7 +94,7 @@ func writeEvidence(prop, tier string, seed int, results []*harnessResult, pc *Pr
 	ev := map[string]interface{}{
 		"property_id": prop, "tier": tier, "seed": seed, "level": "model_checking",
 		"coverage": map[string]interface{}{
-			"states": states, "transitions": transitions, "traces_validated_against_impl": 0,
+			"states": states, "transitions": transitions, "traces_validated_against_impl": validated,
 			"samples": samples, "obligations": obligations, "discharged": discharged,
 			"explanation":   "bounded symbolic execution of the go/ssa form of /repo's current working tree (re-loaded on this run); states = feasible paths completed, transitions = fork decisions, obligations/discharged = SMT queries asked / answered sat-or-unsat",
 			"harnesses":     harnesses,
